@@ -493,6 +493,24 @@ func (s *sandboxFacts) checkInheritance(r *Report, choke map[*ssa.Function]bool)
 			}
 		})
 	}
+	for changed := true; changed; {
+		changed = false
+		for _, fn := range w.pkgFuncs() {
+			if constructors[fn] {
+				continue
+			}
+			instrsOf(fn, func(in ssa.Instruction) {
+				c, ok := in.(*ssa.Call)
+				if !ok || constructors[fn] {
+					return
+				}
+				if f := c.Call.StaticCallee(); f != nil && constructors[f] && isCtx(c) && flowsToReturn(c) {
+					constructors[fn] = true
+					changed = true
+				}
+			})
+		}
+	}
 	// the pool's New function literal also initialises
 	r.floor("RenderContext constructors (functions returning renderContextPool.Get())", len(constructors), 1)
 
